@@ -24,8 +24,11 @@ let nb (i : int) : coq_N = byte_tab.(i land 255)
 let le_int k i = List.init k (fun j -> nb ((i lsr (8 * j)) land 255))
 let huge = int_of_n PrimConsts.hugeStringMarker
 
+(* probability of the 9-byte spelling of a size-like number (object size, string length, element
+   count, variant index); one seed in three spells EVERY one of them that way *)
+let huge_p = ref 0.15
 let size_w (n : int) : coq_N list =
-  if chance 0.15 then (mark "huge-size"; nb huge :: le_int 8 n) else size2_w (n_of_int n)
+  if chance !huge_p then (mark "huge-size"; nb huge :: le_int 8 n) else size2_w (n_of_int n)
 
 let junk () = List.init (1 + rint 6) (fun _ -> nb (rint 256))
 
@@ -152,6 +155,8 @@ and obj s x t ze idx fds fs =
 let relax (s : schema) (x : tl2x) (seed : int) (t : nat) (v : value) : (coq_N list * string list) option =
   st := Random.State.make [| seed |];
   Hashtbl.reset kinds;
+  huge_p := (if seed mod 3 = 0 then 1.0 else 0.15);
+  if seed mod 3 = 0 then mark "all-sizes-huge";
   try
     let b = enc s x t false v in
     Some (b, List.sort compare (Hashtbl.fold (fun k () acc -> k :: acc) kinds []))
